@@ -133,6 +133,10 @@ a.a -> b: L6
 	{Name: "case-variant-child", Text: "X: L1 {\n  x: L2\n  y: L3\n}\nz: L4\nX.x -> z: L5\n"},
 	{Name: "chain-through-descendant", Text: "x: L1\ny: L2\nq: L3\na: L4 {\n  b: L5 {\n    c: L6\n  }\n}\nx -> a.b.c -> y: L7\n"},
 	{Name: "chain-with-map", Text: "a: L1\nb: L2\nc: L3\na -> b -> c: {\n  style.stroke: red\n}\n"},
+	{Name: "scoped-connection-key", Text: "a: L1 {\n  b: L2 {\n    c: L3\n    d: L4\n  }\n}\nz: L5\na.b.(c -> d): L6\na: {\n  b.(d -> c): L7\n}\n"},
+	{Name: "two-classes-same-attribute", Text: "classes: {\n  k: {\n    style.fill: yellow\n    style.stroke: black\n  }\n  j: {\n    style.fill: blue\n    style.stroke: green\n  }\n}\na: L1 {\n  class: j\n}\nb: L2 {\n  class: j\n}\nc: L3 {\n  class: k\n}\na -> b: L4 {\n  class: j\n}\nc -> b: L5 {\n  class: j\n}\n"},
+	{Name: "class-member-connection", Text: "k: L1 {\n  shape: class\n  f: int\n  g(): void\n}\na: L2\na -> k.f: L3\nk.\"g()\" -> a: L4\n"},
+	{Name: "edge-only-object-in-base", Text: "a: L1\na -> b: L2\nc: L3\n\nscenarios: {\n  x: {\n    b.style.fill: red\n  }\n  y: {\n    d: L4\n  }\n}\n\nsteps: {\n  p: {\n    b.style.fill: blue\n  }\n  q: {\n    e: L5\n  }\n}\n"},
 	{Name: "sql-class-shapes", Tier: 1, Text: `t: L1 {
   shape: sql_table
   id: int
